@@ -757,6 +757,42 @@ Section Const.
         inv H. constructor; [apply IHs; exact E|apply IHl; exact E2].
   Qed.
 
+  Scheme RS_min := Minimality for RS Sort Prop
+    with RB_min := Minimality for RB Sort Prop
+    with RL_min := Minimality for RL Sort Prop.
+  Combined Scheme RS_RB_RL_min from RS_min, RB_min, RL_min.
+
+  (* ... and conversely: every residual is computed, by any sufficient fuel *)
+  Lemma rest_complete :
+      (forall ie s st R, RS ie s st R -> exists F, forall F', F <= F' -> rest_stmt F' ie s st = Ok R) /\
+      (forall ie ss i st R, RB ie ss i st R -> exists F, forall F', F <= F' -> rest_block F' ie ss i st = Ok R) /\
+      (forall l sts R, RL l sts R -> exists F, forall F', F <= F' -> rest_list F' l sts = Ok R).
+  Proof.
+    apply RS_RB_RL_min.
+    - intros ie s. exists 1. intros F' H. destruct F' as [|F']; [lia|]. destruct s; reflexivity.
+    - intros ie n a ins id. exists 1. intros F' H. destruct F' as [|F']; [lia|]. reflexivity.
+    - intros ie t a ins body cid i st R _ (Fb & HF). exists (S Fb). intros F' H.
+      destruct F' as [|F']; [lia|]. cbn [rest_stmt]. rewrite HF by lia. reflexivity.
+    - intros ie bs sts R _ (Fl & HF). exists (S Fl). intros F' H.
+      destruct F' as [|F']; [lia|]. cbn [rest_stmt]. apply HF. lia.
+    - intros ie e p fl b i st R _ (Fb & HF). exists (S Fb). intros F' H.
+      destruct F' as [|F']; [lia|]. cbn [rest_stmt]. apply HF. lia.
+    - intros ie e body k i st R D _ (Fb & HF) (Fd & HD). exists (S (Nat.max Fb Fd)). intros F' H.
+      destruct F' as [|F']; [lia|]. cbn [rest_stmt]. rewrite HF by lia. cbn [rbind].
+      destruct (HD 0) as (q' & E). rewrite (den_loop_le orc Fd F' _ _ _ _ _ ltac:(lia) E). reflexivity.
+    - intros ie v lim body k i st R D _ (Fb & HF) (Fd & HD). exists (S (Nat.max Fb Fd)). intros F' H.
+      destruct F' as [|F']; [lia|]. cbn [rest_stmt]. rewrite HF by lia. cbn [rbind].
+      destruct (HD 0) as (q' & E). rewrite (den_loop_le orc Fd F' _ _ _ _ _ ltac:(lia) E). reflexivity.
+    - intros ie v lim c sts R _ (Fl & HF). exists (S Fl). intros F' H.
+      destruct F' as [|F']; [lia|]. cbn [rest_stmt]. apply HF. lia.
+    - intros ie ss i s st R D N _ (Fs & HF) (Fd & HD). exists (S (Nat.max Fs Fd)). intros F' H.
+      destruct F' as [|F']; [lia|]. cbn [rest_block]. rewrite N, HF by lia. cbn [rbind].
+      destruct (HD 0) as (q' & E). rewrite (den_block_le orc Fd F' _ _ _ _ _ ltac:(lia) E). reflexivity.
+    - exists 1. intros F' H. destruct F' as [|F']; [lia|]. reflexivity.
+    - intros ie b r st sts R1 R2 _ (F1 & HF1) _ (F2 & HF2). exists (S (Nat.max F1 F2)). intros F' H.
+      destruct F' as [|F']; [lia|]. cbn [rest_list]. rewrite HF1 by lia. cbn [rbind]. rewrite HF2 by lia. reflexivity.
+  Qed.
+
   Section Run.
   Variable imm : nat -> bool.
 
@@ -1519,6 +1555,36 @@ Corollary deliver_stmt_conf : forall orc imm f ctx ie s st id g st' g',
               forall R', RS orc ie s st' R' -> exists R, RS orc ie s st R /\ Permutation R (E ++ R').
 Proof. intros orc imm f ctx ie s st id g st' g' Hc. exact (proj1 (deliver_conf orc Hc imm f) ctx ie s st id g st' g'). Qed.
 
+(* (2) once more, with the residual computed by [rest_stmt] *)
+Corollary start_stmt_rest : forall orc imm f ctx ie s g st g' F R,
+    counter_free orc ->
+    start_stmt orc imm f ctx ie s g = Ok (st, g') ->
+    rest_stmt orc F ie s st = Ok R ->
+    exists E F' D q',
+      LogD E g g' /\ den_stmt orc F' ie s (g_q g) = Ok (D, q') /\ Permutation D (E ++ R).
+Proof.
+  intros orc imm f ctx ie s g st g' F R Hc H HR.
+  apply (proj1 (rest_sound orc Hc F)) in HR.
+  destruct (proj1 (start_conf orc Hc imm f) _ _ _ _ _ _ H) as (E & L & K).
+  destruct (K _ HR) as (D & (F' & HD) & HP). destruct (HD (g_q g)) as (q' & E').
+  exists E, F', D, q'. split; [exact L|]. split; [exact E'|exact HP].
+Qed.
+
+Corollary deliver_stmt_rest : forall orc imm f ctx ie s st id g st' g' F R',
+    counter_free orc ->
+    deliver orc imm f ctx ie s st id g = Ok (Some st', g') -> wf s st ->
+    rest_stmt orc F ie s st' = Ok R' ->
+    exists E F' R,
+      LogD E g g' /\ rest_stmt orc F' ie s st = Ok R /\ Permutation R (E ++ R').
+Proof.
+  intros orc imm f ctx ie s st id g st' g' F R' Hc H W HR'.
+  apply (proj1 (rest_sound orc Hc F)) in HR'.
+  destruct (proj1 (deliver_conf orc Hc imm f) _ _ _ _ _ _ _ _ H W) as (E & L & K).
+  destruct (K _ HR') as (R & HR & HP).
+  destruct (proj1 (rest_complete orc) _ _ _ _ HR) as (F' & HF).
+  exists E, F', R. split; [exact L|]. split; [apply HF; apply Nat.le_refl|exact HP].
+Qed.
+
 (* (3) the whole history of an order that completed *)
 Theorem confluence : forall orc imm f body cs tr,
     counter_free orc ->
@@ -2008,4 +2074,42 @@ Corollary while_true_never_completes_decide : forall orc imm f body cs tr i e b 
 Proof.
   intros orc imm f body cs tr i e b q0 Hc N E. eapply while_true_never_completes; [exact Hc|exact N|].
   eapply cdecide_of_decide; eassumption.
+Qed.
+
+(* ================================================================================== *)
+(* 14. non-vacuity of the prefix theorem, with the residual computed by [rest_block]    *)
+(* ================================================================================== *)
+Example confluence_prefix_nonvacuous :
+  let script := [AStart; AFinish 1; AJunk; AFinish 0] in
+  exists tr sF cid i st R mid q',
+    run_script (corc ConfluenceExample.rho) ConfluenceExample.imm 50 ConfluenceExample.body sched0 script = Ok tr
+    /\ exec (corc ConfluenceExample.rho) ConfluenceExample.imm ConfluenceExample.body 50 sched0 script = Ok sF
+    /\ sc_root sF = Some (RCall cid i st)
+    /\ rest_block (corc ConfluenceExample.rho) 50 [] ConfluenceExample.body i st = Ok R
+    /\ List.length R = 9
+    /\ den_block (corc ConfluenceExample.rho) 50 [] ConfluenceExample.body 0 0 = Ok (mid, q')
+    /\ Permutation (DN TS production_task root_site [] :: mid ++ [DN TF production_task root_site []])
+                   (trace_devs tr ++ R ++ [DN TF production_task root_site []]).
+Proof.
+  intro script.
+  destruct (run_script (corc ConfluenceExample.rho) ConfluenceExample.imm 50 ConfluenceExample.body sched0 script)
+    as [tr| | |] eqn:E1; [|exfalso; vm_compute in E1; discriminate E1 ..].
+  destruct (exec (corc ConfluenceExample.rho) ConfluenceExample.imm ConfluenceExample.body 50 sched0 script)
+    as [sF| | |] eqn:EX; [|exfalso; vm_compute in EX; discriminate EX ..].
+  destruct (den_block (corc ConfluenceExample.rho) 50 [] ConfluenceExample.body 0 0) as [[mid q']| | |] eqn:E2;
+    [|exfalso; vm_compute in E2; discriminate E2 ..].
+  destruct (sc_root sF) as [[|id'|cid i st|sts|bb i st|k i st|sts]|] eqn:ER;
+    try (exfalso; vm_compute in EX; inv EX; discriminate ER).
+  destruct (rest_block (corc ConfluenceExample.rho) 50 [] ConfluenceExample.body i st) as [R| | |] eqn:ERB;
+    try (exfalso; vm_compute in EX; inv EX; cbn in ER; inv ER; vm_compute in ERB; discriminate ERB).
+  exists tr, sF, cid, i, st, R, mid, q'.
+  split; [reflexivity|]. split; [reflexivity|]. split; [exact ER|]. split; [exact ERB|]. split.
+  { clear - EX ER ERB. vm_compute in EX. inv EX. cbn in ER. inv ER. vm_compute in ERB. inv ERB. reflexivity. }
+  split; [reflexivity|].
+  apply (proj1 (proj2 (rest_sound _ (corc_counter_free _) _))) in ERB.
+  destruct (script_conf_gen _ (corc_counter_free _) _ _ _ _ _ _ _ (PInv_sched0 _) lst_all_default E1 EX
+                            (R ++ [DN TF production_task root_site []])) as (R0 & HR0 & HP).
+  { rewrite ER. cbn [RRoot]. exists R. split; [exact ERB|reflexivity]. }
+  cbn [sc_root sched0 RRoot] in HR0. destruct HR0 as (mid0 & HD0 & ->).
+  rewrite (DB_fun _ _ _ _ _ _ HD0 (DB_of_den _ (corc_counter_free _) _ _ _ _ _ _ _ E2)) in HP. exact HP.
 Qed.
